@@ -20,6 +20,7 @@ import PrologVerif.Model.Exception
 import PrologVerif.Generated.Builtins
 import PrologVerif.Proofs.Read0Rec
 import PrologVerif.Proofs.Read0Pinned
+import PrologVerif.Properties.C05VM
 namespace PrologVerif.C05
 open PrologVerif PrologVerif.IsoError PrologVerif.Exception PrologVerif.Generated PrologVerif.Read0
 
